@@ -245,7 +245,13 @@ CLAIMED = {
              "carries its ancestors' accumulated transform as a prefix of its own and only appends (own transform, then viewport "
              "transform or use translate); the matrix of ancestors ++ own pieces is the product with the own pieces acting on a point "
              "first (over any field, from the C04 algebra); nothing below a computed display:none or below defs/clipPath/pattern is "
-             "rendered at any depth; the scope established by svg and use has no x/y/width/height. Stage B (Model/DocShape: length "
+             "rendered at any depth; the scope established by svg and use has no x/y/width/height; the piece an svg with a complete "
+             "viewBox appends is viewboxMatrix (C11: the SVG 2 8.2 equivalent transform) and its content is rendered against the "
+             "viewBox size; a shape is rendered against the viewport of the scope it is entered in; attribute text whose functions "
+             "denote D acts as D (bridge to C04); reify(): the residual matrix of a folded rect/circle/ellipse is the identity and "
+             "every point of the shape's decomposition goes exactly where the reified shape has it, lines and poly shapes keep every "
+             "point's absolute position, an unfoldable matrix leaves numbers and matrix untouched (Model/Reify, tied by the stream "
+             "c03.reify: numbers and residual matrix of every shape parsed with reify=True). Stage B (Model/DocShape: length "
              "resolution against ppi and the nearest viewport, shape defaults and degeneracy, matrix from the pieces) and the whole "
              "pipeline are tied to the code by differential execution on generated documents (character-level attribute text to the "
              "Lean model, the same XML to SVG.parse); an independent specification evaluator (CTM product, nearest viewport, use "
@@ -265,7 +271,8 @@ CLAIMED = {
              "< id < inline (string-level: split distributes over the ';'-joined text); the specified value of any property is the "
              "last declaration in that ordered list, else the presentation attribute; a later source overrides every earlier one and a "
              "silent one changes nothing; inline beats everything; an id rule beats class, type and universal rules and the attribute; "
-             "currentColor is the element's own color else the inherited one; for every propagating property the computed value is the "
+             "blocks of a repeated selector accumulate in sheet order with or without trailing semicolons; currentColor is the "
+             "element's own color else the inherited one; for every propagating property the computed value is the "
              "element's own compiled value else the parent's (dictionary update over the erased copy), and an unset property is handed "
              "to the children unchanged through g, svg, defs and use alike (only x/y/width/height are stripped); with the C03 refinement "
              "(loop = recursive renderer, scope restored after every subtree) this gives nearest-ancestor inheritance at any depth. "
